@@ -122,6 +122,7 @@ type FnCtx struct {
 	paramsEntry map[string]Val
 	recvName string
 	warnings []string
+	trusted  map[string]bool // extern / quiet / library-model functions this proof relies on
 	unsupported []string
 	info     *types.Info
 	retHook  func(st *State, vals []Val) // when inlined
